@@ -233,6 +233,31 @@ def shard(ctx, shard_no, nshards, n, n_text, n_seq):
         run_machine(ctx, shard_no, n_seq)
 
 
+NUM = re.compile(r'(?<![\w.@])(\d+)(\.\d*)?(?![\w.])')
+
+
+def respell(text, x):
+    """A text related to an earlier one: equal numbers spelled differently, other whitespace, other name case.
+
+    Parsers that key any memory on a normalised form of what they saw are exposed by such neighbours.
+    """
+    mode = x % 4
+    if mode == 0:
+        def f(m):
+            whole, frac = m.group(1), m.group(2)
+            if frac is None:
+                return [whole + '.0', whole + 'e0', whole + '.', '0' * 0 + whole][x // 4 % 4]
+            if frac in ('.', '.0'):
+                return whole
+            return whole + frac + '0'
+        return NUM.sub(f, text)
+    if mode == 1:
+        return text.replace(' ', '  ').replace('{', '{ ').replace('}', ' }')
+    if mode == 2:
+        return text.replace('True', 'False') if 'True' in text else text.replace('<', '<=', 1)
+    return text.upper() if x % 8 == 3 else text.replace(' and ', ' or ', 1)
+
+
 def run_machine(ctx, shard_no, n_runs):
     from hypothesis import HealthCheck, seed, settings
     from hypothesis.stateful import run_state_machine_as_test
@@ -245,12 +270,15 @@ def run_machine(ctx, shard_no, n_runs):
             self.parsers = {}
             self.calls = []
 
-        @rule(tape=st.binary(min_size=1024, max_size=1024), reuse=st.integers(0, 3), which=st.integers(0, 50))
+        @rule(tape=st.binary(min_size=1024, max_size=1024), reuse=st.integers(0, 4), which=st.integers(0, 63))
         def parse(self, tape, reuse, which):
             if reuse == 0 and self.calls:
                 kind, text = self.calls[which % len(self.calls)]  # the same text again, later
                 if which % 3 == 0:
                     kind = lib.ENTRY_POINTS[which % 5]
+            elif reuse == 1 and self.calls:
+                kind, text = self.calls[which % len(self.calls)]  # a close relative of an earlier text
+                text = respell(text, which)
             else:
                 c = gen_case(Chooser(tape))
                 kind, text = c['kind'], c['text']
@@ -289,11 +317,67 @@ def run_machine(ctx, shard_no, n_runs):
         break
 
 
+def atheris_campaigns(ctx, n_procs, runs):
+    """Coverage-guided complement (thorough tier): atheris/libFuzzer over token-index inputs, same oracle."""
+    import json
+    import os
+    import subprocess
+    import tempfile
+
+    deps = os.path.join(core.VERIF_DIR, '.deps')
+    env = dict(os.environ, PYTHONHASHSEED='0', PYTHONPATH=os.pathsep.join([core.VERIF_DIR, deps]))
+    probe = subprocess.run([sys.executable, '-c', 'import atheris'], env=env, capture_output=True)
+    if probe.returncode != 0:
+        ctx.note('atheris is not importable (python -m hplverif.setup installs it from the local wheelhouse): coverage-guided campaign skipped')
+        return
+    vocab = list(VOCAB) + ['globally: no a {', '}', ' within 1 s', '# id: p ', 'forall i in xs: @i', '(a or b)', 'x > 0']
+    seeds = [
+        [1, 'globally: no a {', 'x > 0', '}'],
+        [1, 'globally', ':', 'a', 'causes', 'b', ' within 1 s'],
+        [2, '{', 'forall i in xs: @i', 'and', 'x', 'in', '[', '0', 'to', '1', ']', '}'],
+        [0, '# id: p ', 'globally', ':', 'no', '(a or b)'],
+        [4, 'abs', '(', 'x', ')', '+', 'len', '(', 'xs', ')'],
+    ]
+    with tempfile.TemporaryDirectory(prefix='hplverif-c07-') as d:
+        procs = []
+        for i in range(n_procs):
+            corpus = os.path.join(d, f'corpus{i}')
+            os.makedirs(corpus)
+            if i % 2 == 1:  # every other campaign starts from a few valid token sequences, the others from nothing
+                for j, sd in enumerate(seeds):
+                    with open(os.path.join(corpus, f'seed{j}'), 'wb') as f:
+                        f.write(bytes([sd[0]] + [vocab.index(t) for t in sd[1:]]))
+            findings = os.path.join(d, f'findings{i}.jsonl')
+            cmd = [sys.executable, '-m', 'hplverif.fuzz_c07', str(runs), str(core.derive_seed(ctx.seed, 'atheris', i) % (2**31 - 1) + 1), corpus, findings]
+            procs.append((subprocess.Popen(cmd, cwd=core.VERIF_DIR, env=dict(env, HPL_REPO_DIR=core.REPO_DIR), stdout=subprocess.DEVNULL, stderr=subprocess.DEVNULL), findings, corpus))
+        for p, findings, corpus in procs:
+            try:
+                p.wait(timeout=3600)
+            except subprocess.TimeoutExpired:
+                p.kill()
+                ctx.note('an atheris campaign hit its wall-clock budget: inconclusive on the rest')
+            if os.path.exists(findings + '.stats'):
+                with open(findings + '.stats') as f:
+                    stats = json.load(f)
+                ctx.evaluations += stats['execs']
+                ctx.count('atheris:execs', stats['execs'])
+                ctx.count('atheris:beyond-lexer', stats['beyond_lexer'])
+                ctx.count('atheris:accepted', stats['accepted'])
+                ctx.count('atheris:corpus-entries', len(os.listdir(corpus)))
+            if os.path.exists(findings):
+                with open(findings) as f:
+                    for line in f:
+                        rec = json.loads(line)
+                        ctx.report(Violation('parse', rec['sig'], rec['input'], rec['message'] + '\n(found by the atheris campaign)'))
+
+
 def run(ctx):
     if ctx.tier == 'quick':
         core.run_sharded(ctx, __name__, 'shard', 1, (1500, 800, 25))
     else:
-        core.run_sharded(ctx, __name__, 'shard', getattr(ctx, 'shards_override', None) or 16, (20000, 10000, 500))
+        core.run_sharded(ctx, __name__, 'shard', getattr(ctx, 'shards_override', None) or 16, (20000, 10000, 60))
+        with ctx.timed('atheris'):
+            atheris_campaigns(ctx, 8, 150000)
 
 
 def extra_evidence(ctx):
